@@ -1,11 +1,14 @@
 #!/bin/sh
 # selftest/refactors.sh : every behaviour-preserving refactoring under selftest/refactors/ must leave every
-# registered check at exit 0 (no alarm, no lost anchor).  Prints the offenders.
+# registered check at exit 0 (no alarm, no lost anchor).  Prints the offenders.  Runs 6 patches at a time.
 here=$(cd "$(dirname "$0")" && pwd)
+tmp=$(mktemp -d)
+ls "$here"/refactors/*/patch.diff | xargs -P 6 -I{} sh -c 'n=$(basename $(dirname {})); python3 "'"$here"'/mutant.py" {} > "'"$tmp"'/$n.log" 2>&1'
 bad=0
-for p in "$here"/refactors/*/patch.diff; do
-  out=$(python3 "$here/mutant.py" "$p" 2>&1 | grep -E "exit=[12]")
-  if [ -n "$out" ]; then echo "ALARM on behaviour-preserving $p:"; echo "$out"; bad=1; fi
+for l in "$tmp"/*.log; do
+  out=$(grep -E "exit=[12]|PATCH DOES NOT APPLY" "$l")
+  if [ -n "$out" ]; then echo "ALARM on behaviour-preserving $(basename $l .log):"; echo "$out"; bad=1; fi
 done
+rm -rf "$tmp"
 [ $bad = 0 ] && echo "all refactorings silent"
 exit $bad
